@@ -65,6 +65,7 @@ def fprints_from_smiles(
 ):
     """Generate conformers and fingerprints from a SMILES string."""
     if save is False and "first" not in confgen_params:
+        confgen_params = dict(confgen_params)
         confgen_params["first"] = fprint_params.get("first", -1)
     mol = confs_from_smiles(
         smiles, name, confgen_params=confgen_params, save=save
